@@ -107,7 +107,22 @@ def realise(shape, lf, keyrot=[0]):
     raise ValueError(k)
 
 
+COMMENTS = [False]
+
+
 def rand_value(rng, depth, lf, hashable_only=False):
+    v = _rand_value(rng, depth, lf, hashable_only)
+    if COMMENTS[0] and not hashable_only:
+        import prettyprinter
+        c = rng.random()
+        if c < 0.3:
+            return prettyprinter.comment(v, rng.choice(['note', 'a longer comment text that will not fit', 'two\nlines']))
+        if c < 0.4 and type(v) in (list, tuple, dict, set) and len(v):
+            return prettyprinter.trailing_comment(v, 'trailing')
+    return v
+
+
+def _rand_value(rng, depth, lf, hashable_only=False):
     if depth == 0 or rng.random() < 0.3:
         return lf.next(rng.choice(['int', 'str', 'bytes', 'float']))
     if hashable_only:
@@ -324,7 +339,7 @@ def describe(value):
 
 def run_value(sh, value, recipe_desc, idx, quick):
     rng = V.rng_for('c11', sh.seed, idx)
-    width = rng.choice([79, 79, 20, 5])
+    width = rng.choice([79, 79, 20, 5, 40, 30])
     h = check_value(sh, value, recipe_desc, None, width)
     if h is None:
         return
@@ -355,9 +370,13 @@ def run_shard(sh):
         if not sh.mine(idx):
             continue
         rng = V.rng_for('c11r', sh.seed, i)
+        COMMENTS[0] = (i % 3 == 2)
         value = rand_value(rng, 4, Leafs())
-        run_value(sh, value, {'kind': 'random', 'i': i, 'seed': sh.seed, 'key': repr(('r', sh.seed, i)), 'repr': describe(value)}, idx, quick)
+        COMMENTS[0] = False
+        run_value(sh, value, {'kind': 'random', 'i': i, 'seed': sh.seed, 'key': repr(('r', sh.seed, i)), 'repr': describe(value) if i % 3 != 2 else '(commented value)'}, idx, quick)
         sh.counters['random values'] += 1
+        if i % 3 == 2:
+            sh.counters['random values carrying comments'] += 1
         if i % 900 == 0:
             sh.sample({'random': describe(value)})
 
@@ -374,7 +393,11 @@ def rebuild(desc):
             return 'L' if s == 'L' else (s[0], [fix(c) for c in s[1]])
         return realise(fix(desc['shape']), Leafs(), [desc['keyrot']])
     rng = V.rng_for('c11r', desc['seed'], desc['i'])
-    return rand_value(rng, 4, Leafs())
+    COMMENTS[0] = (desc['i'] % 3 == 2)
+    try:
+        return rand_value(rng, 4, Leafs())
+    finally:
+        COMMENTS[0] = False
 
 
 def replay(wit):
